@@ -1,6 +1,7 @@
 package harness
 
 import (
+	"io"
 	"bytes"
 	"context"
 	"fmt"
@@ -388,6 +389,13 @@ func (e *c18Env) doOp(op *c18Op) {
 			b = buffer.NewCASBufferFromChunkReader(d, src, buffer.UserProvided)
 		default:
 			b = buffer.NewValidatedBufferFromByteSlice(content)
+		}
+		if st != nil && len(op.Cuts)%2 == 1 {
+			// the shape replicating decorators hand down: one half of a stream
+			// clone with a task attached that feeds the other half to a sink
+			b1, b2 := b.CloneStream()
+			b = b1.WithTask(func() error { return b2.IntoWriter(io.Discard) })
+			c.Stats["probe_put_buffer_with_sibling_task"]++
 		}
 		err := e.ba.Put(e.ctx, d, b)
 		calls := rec.backend[nb:]
